@@ -42,12 +42,26 @@ func isHandlerInvoke(in ssa.Instruction) bool {
 	return anyIn(sliceOf(call.Call.Value), readsField("Server", "Handler"))
 }
 
+// isHandlerGo: a go statement that starts the per-packet handler path (anything but the invalid-message report).
+func isHandlerGo(in ssa.Instruction) bool {
+	_, ok := in.(*ssa.Go)
+	return ok && !isInvalidCallback(in)
+}
+
 func isInvalidCallback(in ssa.Instruction) bool {
-	call, ok := in.(*ssa.Call)
-	if !ok || call.Call.IsInvoke() || call.Call.StaticCallee() != nil {
+	// a report made on a goroutine of its own is still a report (whether the server waits for it is C13's business)
+	ci, ok := in.(ssa.CallInstruction)
+	if !ok {
 		return false
 	}
-	return anyIn(sliceOf(call.Call.Value), readsField("Server", "MsgInvalidFunc"))
+	if _, isDefer := in.(*ssa.Defer); isDefer {
+		return false
+	}
+	cc := ci.Common()
+	if cc.IsInvoke() || cc.StaticCallee() != nil {
+		return false
+	}
+	return anyIn(sliceOf(cc.Value), readsField("Server", "MsgInvalidFunc"))
 }
 
 func c14R1(c *Ctx, r *Report) {
@@ -174,13 +188,13 @@ func c14R1(c *Ctx, r *Report) {
 				if isInvalidCallback(x) {
 					hit = true
 				}
-				if _, isGo := x.(*ssa.Go); isGo && !hit {
+				if isHandlerGo(x) && !hit {
 					sp = append(sp, "a short packet is handed to a handler goroutine")
 				}
 			}
 			if !hit {
 				// search forward until the next branch
-				passed, _ := mustPassUntil(blk, isInvalidCallback, func(x ssa.Instruction) bool { _, g := x.(*ssa.Go); return g })
+				passed, _ := mustPassUntil(blk, isInvalidCallback, isHandlerGo)
 				if !passed {
 					sp = append(sp, "the short-packet edge does not report to MsgInvalidFunc before going on")
 				}
@@ -192,7 +206,7 @@ func c14R1(c *Ctx, r *Report) {
 	}
 	// the go statement itself is on the not-short edge
 	allInstrs(fu, func(in ssa.Instruction) {
-		if g, ok := in.(*ssa.Go); ok {
+		if g, ok := in.(*ssa.Go); ok && isHandlerGo(in) {
 			if miss := guardsMissing(fu, g.Block(), []Guard{{Name: "len(m) >= headerSize", Op: "lt", A: callsFunc("builtin.len"), B: isConstInt(hs), Holds: false}}); len(miss) > 0 {
 				sp = append(sp, fmt.Sprintf("%s: handler goroutine started without the %s test", c.pos(g.Pos()), miss[0]))
 			}
